@@ -7,6 +7,13 @@ to section nesting, pairwise disjoint or nested, are moved into real files
 relatively) and ZConfig.loadConfig(outer file) is compared with
 ZConfig.loadConfigFile(StringIO(original text)).  Negative space: every
 unbalanced range as a fragment must be rejected.
+
+Fold axis (resource identity): cut ranges with identical lines are stored ONCE,
+so the same resource is included from several places of one load (siblings,
+directly and through another fragment, twice inside a fragment, diamond, chain);
+every folded layout is also loaded on a reused ConfigLoader right after a load of
+the same URLs that was rejected inside the shared fragment (cycle / stray section
+end).  See fold_structures(), check_folds().
 """
 import io
 import itertools
@@ -71,6 +78,7 @@ class Scratch:
         os.makedirs(os.path.join(self.base, "p1", "p2", "sub dir"))
         os.makedirs(os.path.join(self.base, "p1", "sub dir"))
         self.n = 0
+        self.ns = 0          # folded structures built so far in this shard (rotates quick-tier choices)
 
     def write(self, d, name, lines):
         os.makedirs(d, exist_ok=True)
@@ -111,12 +119,201 @@ def build(scr, lines, cuts, places):
     return scr.write(scr.maindir, "main%d.conf" % scr.n, main)
 
 
+# ---------------------------------------------------------------------------
+# fold axis: resource identity.  Cut ranges with identical lines are stored ONCE
+# and the same resource is included from every place (a DAG of resources instead
+# of a tree); files live in absolute directories and every reference is the
+# relative path from the includer's directory.
+
+DIRS = ("main", "sub", "parent")
+FAULTS = ("cycle", "stray-close")
+REPEAT_SCHEMA = """<schema>
+  <sectiontype name="t"><multikey name="k"/><key name="p"/></sectiontype>
+  <multikey name="k"/>
+  <key name="p"/>
+  <multisection type="t" name="*" attribute="ts"/>
+</schema>
+"""
+REPEAT_ALPHABET = ("k a", "p 1", "%define d x", "k $d", "<t>", "</t>")
+
+
+def abs_dir(scr, label):
+    if label == "main":
+        return scr.maindir
+    if label == "sub":
+        return os.path.join(scr.maindir, "sub dir")
+    return os.path.dirname(scr.maindir)
+
+
+def rel_ref(from_dir, to_dir, name):
+    import urllib.parse
+    rel = os.path.relpath(to_dir, from_dir)
+    parts = [] if rel == "." else rel.split(os.sep)
+    return "/".join([urllib.parse.quote(x) for x in parts] + [name])
+
+
+def build_folded(scr, lines, cuts, classes, dirs, fault=None, stray="</x>", n=None):
+    """Like build(), but cuts of the same class share one file (their emitted text
+    must be identical) and dirs[class] is an absolute directory label.  `fault`
+    appends one line to the file of class 0 (the shared leaf fragment): an
+    %include of the main file ("cycle") or a section end the fragment has no
+    opener for ("stray-close").  `n` = reuse the file names of layout number n.
+    Returns main path."""
+    if n is None:
+        scr.n += 1
+        n = scr.n
+    kids = {}
+    for idx, (i, j, par) in enumerate(cuts):
+        kids.setdefault(par, []).append(idx)
+    mainname = "main%d.conf" % n
+    written = {}
+
+    def emit(node, lo, hi, d):
+        out = []
+        pos = lo
+        for idx in sorted(kids.get(node, []), key=lambda k: cuts[k][0]):
+            i, j, _ = cuts[idx]
+            out += lines[pos:i]
+            c = classes[idx]
+            fd = abs_dir(scr, dirs[c])
+            name = "g%d_%d.conf" % (n, c)
+            sub = emit(idx, i, j, fd)
+            if c == 0 and fault == "cycle":
+                sub = sub + ["%include " + rel_ref(fd, scr.maindir, mainname)]
+            elif c == 0 and fault == "stray-close":
+                sub = sub + [stray]
+            if c in written:
+                if written[c] != sub:
+                    raise core.HarnessError("cuts of one class give different files: %r" % (cuts,))
+            else:
+                written[c] = sub
+                scr.write(fd, name, sub)
+            out.append("  %include " + rel_ref(d, fd, name))
+            pos = j
+        out += lines[pos:hi]
+        return out
+
+    main = emit(None, 0, len(lines), scr.maindir)
+    return scr.write(scr.maindir, mainname, main)
+
+
+def fold_structures(lines, bal, tier):
+    """Every way (within the bounds) of cutting so that >= 2 cut ranges with identical
+    lines become ONE resource: yields (kind, cuts, classes).  Class 0 is always the
+    shared leaf fragment."""
+    by = {}
+    for r in bal:
+        by.setdefault(tuple(lines[r[0]:r[1]]), []).append(r)
+    for content in sorted(by):
+        v = sorted(by[content])
+        for b1, b2 in itertools.combinations(v, 2):
+            if b1[1] > b2[0]:
+                continue
+            yield "fold-siblings", [b1 + (None,), b2 + (None,)], (0, 0)
+            W1 = [c for c in bal if c[0] <= b1[0] and b1[1] <= c[1] and c != b1 and c[1] <= b2[0]]
+            W2 = [c for c in bal if c[0] <= b2[0] and b2[1] <= c[1] and c != b2 and c[0] >= b1[1]]
+            WB = [c for c in bal if c[0] <= b1[0] and b2[1] <= c[1]]
+            for c in W1:          # reached through another fragment first, then directly
+                yield "fold-via-then-direct", [c + (None,), b1 + (0,), b2 + (None,)], (1, 0, 0)
+            for c in W2:          # directly first, then through another fragment
+                yield "fold-direct-then-via", [b1 + (None,), c + (None,), b2 + (1,)], (0, 1, 0)
+            for c in WB:          # twice inside one fragment
+                yield "fold-siblings-in-fragment", [c + (None,), b1 + (0,), b2 + (0,)], (1, 0, 0)
+            for c1 in W1:
+                for c2 in W2:
+                    if c1[1] > c2[0]:
+                        continue
+                    cuts = [c1 + (None,), b1 + (0,), c2 + (None,), b2 + (2,)]
+                    yield "fold-diamond", cuts, (1, 0, 2, 0)
+                    if lines[c1[0]:c1[1]] == lines[c2[0]:c2[1]] and b1[0] - c1[0] == b2[0] - c2[0]:
+                        # the wrapper is a repeated run as well: one wrapper file, included twice,
+                        # which includes the leaf
+                        yield "fold-chain", cuts, (1, 0, 1, 0)
+        if tier != "quick" or len(lines) <= 5:
+            for b1, b2, b3 in itertools.combinations(v, 3):
+                if b1[1] <= b2[0] and b2[1] <= b3[0]:
+                    yield "fold-siblings-3", [b1 + (None,), b2 + (None,), b3 + (None,)], (0, 0, 0)
+    if tier != "quick":
+        # two different repeated runs folded in the same layout
+        reps = []
+        for content in sorted(by):
+            for b1, b2 in itertools.combinations(sorted(by[content]), 2):
+                if b1[1] <= b2[0]:
+                    reps.append((b1, b2))
+        for (a1, a2), (b1, b2) in itertools.combinations(reps, 2):
+            rs = sorted([a1, a2, b1, b2])
+            if all(rs[x][1] <= rs[x + 1][0] for x in range(3)):
+                yield "fold-two-classes", [a1 + (None,), a2 + (None,), b1 + (None,), b2 + (None,)], (0, 0, 1, 1)
+
+
+def dir_assignments(nclasses, tier, ns=0):
+    """Absolute directory per file class.  k = 1: all 3.  thorough: all 9 for k = 2, for k = 3 the 9
+    of 27 assignments whose index sum + ns is divisible by 3 (every directory pair for leaf x each
+    wrapper; all 27 over consecutive structures).  quick, k >= 2: three assignments per structure -
+    the shared leaf in each of the 3 directories, the wrapper(s) shifted by an offset that rotates
+    with the structure number `ns`, so that all 3^k assignments are used over consecutive
+    structures."""
+    full = list(itertools.product(DIRS, repeat=nclasses))
+    if nclasses == 1 or (tier != "quick" and nclasses == 2):
+        return full
+    if tier != "quick":
+        return [d for d in full if (sum(DIRS.index(x) for x in d) + ns) % 3 == 0]
+    out = []
+    for d0 in range(3):
+        ds = [d0]
+        q = ns
+        for _ in range(nclasses - 1):
+            ds.append((d0 + q) % 3)
+            q //= 3
+        out.append(tuple(DIRS[x] for x in ds))
+    return out
+
+
+def stray_close_for(lines, at):
+    st = []
+    for l in lines[:at]:
+        k = classify(l)
+        if k == "open":
+            st.append(l.strip()[1:-1].split()[0] if l.strip()[1:-1].split() else "x")
+        elif k == "close" and st:
+            st.pop()
+    return "</%s>" % (st[-1] if st else "x")
+
+
+def repeat_seeds(tier):
+    """All texts of 2..N lines over REPEAT_ALPHABET that are balanced as a layout and
+    contain a run of lines twice (two disjoint balanced ranges with identical lines)."""
+    N = 5 if tier == "quick" else 6
+    out = []
+    for n in range(2, N + 1):
+        for combo in itertools.product(REPEAT_ALPHABET, repeat=n):
+            lines = list(combo)
+            if not balanced(lines, 0, n):
+                continue
+            seen = {}
+            rep = False
+            for (i, j) in ranges(lines):
+                if balanced(lines, i, j):
+                    key = combo[i:j]
+                    if key in seen and seen[key] <= i:
+                        rep = True
+                        break
+                    seen.setdefault(key, j)
+            if rep:
+                out.append(lines)
+    return out
+
+
+LAST_REJECTION = [None]      # message of the most recent rejection (shown by replay only)
+
+
 def outcome_file(sch, path):
     import ZConfig
     try:
         cfg, _ = ZConfig.loadConfig(sch, path)
         return ("tree", H.tree(cfg))
     except ZConfig.ConfigurationError as e:
+        LAST_REJECTION[0] = "%s: %s" % (type(e).__name__, e)
         return ("rejected",)
     except Exception as e:
         return ("internal", core.exc_desc(e))
@@ -131,7 +328,7 @@ def outcome_text(sch, text):
     return ("internal", core.exc_desc(r[1]))
 
 
-def check_seed(scr, sch, lines, acc, mid, tier):
+def check_seed(scr, sch, lines, acc, mid, tier, cutsets=True):
     text = "\n".join(lines) + "\n"
     base = outcome_text(sch, text)
     acc.ev()
@@ -166,6 +363,9 @@ def check_seed(scr, sch, lines, acc, mid, tier):
                           tags={"kind": kind, "places": list(places), "nested": any(p is not None for _, _, p in cuts),
                                 "define": has_define, "seed": base[0]})
 
+    check_folds(scr, sch, lines, acc, mid, tier, base, bal, has_define)
+    if not cutsets:
+        return
     for (i, j) in bal:
         for pl in PLACES:
             run_case([(i, j, None)], (pl,), base, "single")
@@ -203,6 +403,91 @@ def check_seed(scr, sch, lines, acc, mid, tier):
             elif j <= k and l <= m:
                 run_case([(i, j, None), (k, l, None), (m, n, None)], ("same", "sub", "parent"), base,
                          "triple-disjoint")
+
+
+def outcome_loader(ld, path):
+    import ZConfig
+    try:
+        cfg, _ = ld.loadURL(path)
+        return ("tree", H.tree(cfg))
+    except ZConfig.ConfigurationError as e:
+        LAST_REJECTION[0] = "%s: %s" % (type(e).__name__, e)
+        return ("rejected",)
+    except Exception as e:
+        return ("internal", core.exc_desc(e))
+
+
+def fold_steps(scr, sch, ld, lines, cuts, classes, dirs, history, faults=FAULTS):
+    """Execute one folded layout: -> list of (step, outcome, rejection message).  'fresh' = ZConfig.loadConfig of
+    the layout; with `history`, for every fault: the layout with the fault line in the shared
+    fragment loaded on the reused loader `ld` ('fault:<f>'), then the fault-free layout written to
+    the SAME paths loaded on `ld` again ('after:<f>')."""
+    out = []
+    path = build_folded(scr, lines, cuts, classes, dirs)
+    def rec(step, got):
+        out.append((step, got, LAST_REJECTION[0] if got[0] == "rejected" else ""))
+
+    rec("fresh", outcome_file(sch, path))
+    if history:
+        stray = stray_close_for(lines, [c for c, k in zip(cuts, classes) if k == 0][0][0])
+        for f in faults:
+            p2 = build_folded(scr, lines, cuts, classes, dirs, fault=f, stray=stray, n=scr.n)
+            assert p2 == path
+            rec("fault:" + f, outcome_loader(ld, path))
+            build_folded(scr, lines, cuts, classes, dirs, n=scr.n)
+            rec("after:" + f, outcome_loader(ld, path))
+    return out
+
+
+def check_folds(scr, sch, lines, acc, mid, tier, base, bal, has_define):
+    import ZConfig.loader
+    text = "\n".join(lines) + "\n"
+    # one loader object per seed, reused by every history load of the seed (a loader that has
+    # seen %import carries a private schema: not the subject here)
+    ld = None if any(classify(l) == "directive" for l in lines) else ZConfig.loader.ConfigLoader(sch)
+    nstruct = 0
+    for kind, cuts, classes in fold_structures(lines, bal, tier):
+        nstruct += 1
+        scr.ns += 1
+        ns = scr.ns
+        ncls = max(classes) + 1
+        assigns = dir_assignments(ncls, tier, ns)
+        for di, dirs in enumerate(assigns):
+            # the history steps on one directory assignment per structure, rotating with the
+            # structure number so that every assignment is used
+            history = ld is not None and di == ns % len(assigns)
+            case = {"member": mid, "text": text, "fold": True, "cuts": [list(c) for c in cuts],
+                    "classes": list(classes), "dirs": list(dirs), "history": history}
+            acc.current = case
+            # quick: one fault per structure, alternating; thorough: both
+            faults = FAULTS if tier != "quick" else (FAULTS[(ns // 3) % 2],)
+            case["faults"] = list(faults)
+            steps = fold_steps(scr, sch, ld, lines, cuts, classes, dirs, history, faults)
+            for step, got, _ in steps:
+                acc.ev()
+                acc.transitions += 1
+                acc.nt()
+                expect = ("rejected",) if step.startswith("fault:") else base
+                sk = step.split(":")[0]
+                acc.cls("%s/%s:%s" % (kind, sk, got[0]))
+                # coverage counters by EXPECTED outcome (independent of what the implementation did)
+                acc.extra["expected %s/%s:%s" % (kind, sk, expect[0])] += 1
+                acc.extra["expected fold/%s:%s" % (sk, expect[0])] += 1
+                if got[0] == "internal":
+                    acc.violation("internal-error", dict(case, step=step), got[1], expect[0],
+                                  tags={"kind": "internal-error", "exc": got[1]["class"], "where": got[1]["where"],
+                                        "fold": kind, "step": step})
+                elif got != expect:
+                    vk = {"fresh": "shared-fragment-differs-from-inlined-text",
+                          "fault": "faulty-shared-fragment-accepted",
+                          "after": "reused-loader-differs-after-rejected-load"}[sk]
+                    acc.violation(vk, dict(case, step=step), [got[0], repr(got[1:])[:300]],
+                                  [expect[0], repr(expect[1:])[:300]],
+                                  tags={"kind": kind, "step": step, "dirs": list(dirs), "define": has_define,
+                                        "seed": base[0]})
+            acc.sample(lambda: dict(case, kind=kind))
+    if nstruct:
+        acc.extra["seeds-with-a-repeated-run"] += 1
 
 
 def define_seeds():
@@ -261,7 +546,7 @@ def shard(member, acc):
             sch = H.load_schema(xml)
             mid = {"name": name, "schema": xml}
             for lines in seeds:
-                check_seed(scr, sch, lines, acc, mid, tier)
+                check_seed(scr, sch, lines, acc, mid, tier, cutsets=(kind != "repeat"))
     finally:
         scr.close()
     acc.traces = acc.transitions
@@ -274,6 +559,9 @@ def run(tier):
     step = 40
     for i in range(0, len(ds), step):
         mem.append(("fixed", "define-%d" % i, DEFINE_SCHEMA, ds[i:i + step], tier))
+    rs = repeat_seeds(tier)
+    for i in range(0, len(rs), step):
+        mem.append(("repeat", "repeat-%d" % i, REPEAT_SCHEMA, rs[i:i + step], tier))
     run = core.Run(
         "C06", tier, "model_checking",
         rule="seeds = accepted and rejected corpus texts (3..%d lines, capped per schema) and %d %%define texts "
@@ -281,22 +569,91 @@ def run(tier):
              "as a fragment in 3 placements (same / sub-directory with a space in its name / parent directory), "
              "every unbalanced range (must be rejected), every ordered pair of disjoint or nested balanced ranges x "
              "%s placement pairs%s; real files, ZConfig.loadConfig(path) vs loadConfigFile(StringIO(original)).  "
-             "states = seeds, transitions = include layouts loaded.  Non-trivial = a range inside a section, a "
-             "nested cut, or a seed with %%define."
+             "FOLD AXIS (resource identity): for every seed above and for %d repeat seeds (all texts of 2..%d lines "
+             "over the %d-line alphabet %r that are layout-balanced and contain a run of lines twice), every pair of "
+             "disjoint balanced ranges with IDENTICAL lines becomes ONE file included from both places: both at the "
+             "top of the main file (fold-siblings%s), one directly and one through any wrapper fragment in either "
+             "order (fold-via-then-direct, fold-direct-then-via), both inside any one wrapper "
+             "(fold-siblings-in-fragment), each inside its own wrapper (fold-diamond; fold-chain when the wrappers are "
+             "identical too and are folded as well)%s; files in absolute directories main / sub / parent, %s, references = relative path from the includer's directory.  Steps per "
+             "folded layout: fresh ZConfig.loadConfig == inlined text; and (%s) on ONE ConfigLoader per seed: the "
+             "layout with a fault line appended to the shared fragment (%%include of the main file = cycle; a section "
+             "end the fragment did not open) must be rejected, then the fault-free layout on the same paths must again "
+             "equal the inlined text.  "
+             "states = seeds, transitions = loads of include layouts.  Non-trivial = a range inside a section, a "
+             "nested cut, a seed with %%define, or a folded layout (a resource read more than once in one load)."
              % (7 if tier == "quick" else 9, len(ds), "4" if tier == "quick" else "9",
-                "" if tier == "quick" else ", triples for seeds <= 6 lines"),
-        bounds={"members": len(mem), "max_cuts": 2 if tier == "quick" else 3},
-        assumptions=["include arguments are written as URL-quoted relative references"])
+                "" if tier == "quick" else ", triples for seeds <= 6 lines",
+                len(rs), 5 if tier == "quick" else 6, len(REPEAT_ALPHABET), list(REPEAT_ALPHABET),
+                "; three at once for seeds <= 5 lines" if tier == "quick" else "; every three at once",
+                "" if tier == "quick" else ", two different repeated runs folded at once (fold-two-classes)",
+                "all 3 for one file, for k = 2, 3 files three assignments per structure (leaf in each directory, "
+                "wrappers shifted by an offset rotating over consecutive structures so that all 3^k occur)"
+                if tier == "quick" else "all 3 / 9 assignments for 1 / 2 files, 9 of 27 for 3 files (every directory "
+                "pair for leaf x each wrapper, rotating so that all 27 occur over consecutive structures)",
+                "on one directory assignment per structure, rotating; " +
+                ("one of the two faults per structure, alternating" if tier == "quick" else "both faults")),
+        bounds={"members": len(mem), "max_cuts": 2 if tier == "quick" else 3, "max_cuts_folded": 4,
+                "repeat_seeds": len(rs), "repeat_seed_max_lines": 5 if tier == "quick" else 6,
+                "fold_faults": list(FAULTS), "fold_dirs": list(DIRS)},
+        assumptions=["include arguments are written as URL-quoted relative references",
+                     "folded cuts have exactly identical lines (indentation included)"])
     core.pmap(shard, mem, run.acc, shard_budget=3000.0)
     a = run.acc
     run.require(a.classes.get("single:tree", 0) > 200 and a.classes.get("pair-nested:tree", 0) > 100,
                 "few accepted include layouts")
     run.require(a.classes.get("unbalanced:rejected", 0) > 200, "few unbalanced fragments")
+    x = a.extra
+    for k in ("fold-siblings", "fold-via-then-direct", "fold-direct-then-via", "fold-siblings-in-fragment",
+              "fold-diamond", "fold-chain", "fold-siblings-3"):
+        run.require(x.get("expected %s/fresh:tree" % k, 0) > 50,
+                    "fold axis: few layouts of kind %s with an accepted seed (a resource included twice in one load)" % k)
+        run.require(x.get("expected %s/after:tree" % k, 0) > 10,
+                    "fold axis: few reloads of an accepted layout after a rejected load for kind %s" % k)
+    run.require(x.get("expected fold/fault:rejected", 0) > 1000, "fold axis: few faulty shared fragments")
+    run.require(x.get("expected fold/fresh:rejected", 0) > 500, "fold axis: few rejected seeds with a folded layout")
+    run.require(x.get("seeds-with-a-repeated-run", 0) > 1000, "fold axis: few seeds with a repeated run")
+    if tier != "quick":
+        run.require(x.get("expected fold-two-classes/fresh:tree", 0) > 50, "fold axis: few two-class layouts")
     return run
+
+
+def replay_fold(body):
+    import ZConfig.loader
+    case = body["case"]
+    rc = 0
+    for _ in range(2):
+        scr = Scratch()
+        try:
+            sch = H.load_schema(case["member"]["schema"])
+            lines = case["text"].rstrip("\n").split("\n")
+            cuts = [tuple(c) for c in case["cuts"]]
+            exp = outcome_text(sch, case["text"])
+            ld = ZConfig.loader.ConfigLoader(sch)
+            steps = fold_steps(scr, sch, ld, lines, cuts, tuple(case["classes"]), tuple(case["dirs"]),
+                               True, tuple(case.get("faults") or FAULTS))
+            for dp, dn, fn in os.walk(scr.base):
+                for f in sorted(fn):
+                    print("--- %s\n%s" % (os.path.relpath(os.path.join(dp, f), scr.base),
+                                          open(os.path.join(dp, f)).read()), end="")
+            print("inlined text          :", exp[0], repr(exp[1:])[:300])
+            for step, got, msg in steps:
+                want = ("rejected",) if step.startswith("fault:") else exp
+                bad = got != want
+                print("%-22s: %s %s%s" % (step + (" (reused loader)" if step != "fresh" else ""), got[0],
+                                          msg.replace(scr.base, "<tmp>") if msg else repr(got[1:])[:300],
+                                          "   <-- differs" if bad else ""))
+                if bad and step == case.get("step"):
+                    rc = 1
+        finally:
+            scr.close()
+    return rc
 
 
 def replay(body):
     case = body["case"]
+    if case.get("fold"):
+        return replay_fold(body)
     rc = 0
     for _ in range(2):
         scr = Scratch()
